@@ -463,6 +463,18 @@ fn main() {
                         if huge { sc.expiry = u64::MAX - 5; }
                         run(sc, &mut r);
                     }
+                    // operator-chosen expiries other than the default, 0 included (every cookie older than the
+                    // very second it was issued is then refused), with ages on both sides of each
+                    for (cfg_expiry, ages) in [(0u64, vec![0i64, 1, 30, 21_600]), (1, vec![0, 1, 2]), (60, vec![59, 60, 61, 120, 31_536_000]), (86_400, vec![21_601, 86_400, 86_401])] {
+                        for age in ages {
+                            let mut p = base_params(&mut r, Intent::Transfer);
+                            p.auth_payload = Some(valid_auth_cookie(&mut r, &client, &secret_v, age, cfg_expiry, false));
+                            let ads = base_ads(&mut r);
+                            let mut sc = build("C02", &mut r, &p, ads, s.clone(), client, format!("configured expiry {} age {}", cfg_expiry, age));
+                            sc.expiry = cfg_expiry;
+                            run(sc, &mut r);
+                        }
+                    }
                 }
             }
             "C03" => {
